@@ -19,7 +19,7 @@ VARIANTS = ['asan-direct']
 FONTS = ['Padauk.ttf', 'Scheherazadegr.ttf', 'general.ttf', 'charis_r_gr.ttf', 'Awami_test.ttf']
 RULE = ('enum_utf: ALL byte strings of length 0..3 as UTF-8 (exhaustive, each also NUL-terminated with buffer_end=NULL), strings of '
         'length 4..7(8) over 27/9 boundary bytes, all single UTF-16 units, all (unit x 16 boundary units) pairs in both orders, '
-        'length 3..6 over 9 boundary units, every UTF-32 value 0..0x110100 and boundary strings; end of text = end of heap block (ASan); '
+        'length 3..6 over 9 boundary units, every UTF-32 value 0..0x110100 and boundary strings; end of text = end of heap block (ASan); every call is made twice, with and without pError (same reads, same count); '
         'oracle utfjudge.h written from Unicode Table 3-7. Equivalence/derailing: Hypothesis scalar sequences (cmap-guided, astral, '
         'unmapped) x shipped fonts x dir, shaped as UTF-8/16/32; and W1.X.W2 with X ill-formed. Non-trivial: enumerated string contains '
         'a non-ASCII / surrogate / out-of-range unit; equivalence case has a multi-unit character; derail case has an ill-formed X. '
@@ -139,6 +139,8 @@ def judge_count(case, drv):
     l = utfjudge_py.judge(enc, data, mode == 0, r['count'], eo)
     if l:
         raise Violation(l, case, str(r))
+    if r.get('count_noerr', r['count']) != r['count']:
+        raise Violation('count-depends-on-whether-pError-is-given', case, str(r))
 
 
 def replay_file(path):
